@@ -68,12 +68,34 @@ Qed.
 (* _calculate_column_widths of the repaired code: an expanding table whose columns are free to
    wrap (no width, no min_width, no no_wrap; max_width and ratio allowed) and that is given one
    cell per column is solved -- no failure -- to EXACTLY the budget, on every path. *)
-Theorem calc_widths_expand_exact o cols M :
+Lemma combine_map_l {A B} (F : A -> B) : forall l, combine (map F l) l = map (fun x => (F x, x)) l.
+Proof. induction l as [|x l IH]; [reflexivity|]. cbn [map combine]. f_equal. exact IH. Qed.
+
+Lemma filter_map_comm {A B} (g : A -> B) (p : B -> bool) : forall l, filter p (map g l) = map g (filter (fun x => p (g x)) l).
+Proof. induction l as [|x l IH]; [reflexivity|]. cbn [map filter]. destruct (p (g x)); cbn [map]; [f_equal|]; exact IH. Qed.
+
+(* the flexible minimums of the two variants, over the same filtered columns *)
+Lemma flex_min_shape (fm : bool) o M (icols : list (nat * tcol)) :
+  map (fun '(r, (i, c)) => let base := opt_or (c_width c) 1 + padding_width o i in
+                           if fm then Z.max base (fst r) else base)
+      (filter (fun ric : (Z * Z) * (nat * tcol) => flexible (snd (snd ric)))
+              (combine (map (fun '(i, c) => measure_column o i c M) icols) icols))
+  = map (fun '(i, c) => let base := opt_or (c_width c) 1 + padding_width o i in
+                        if fm then Z.max base (fst (measure_column o i c M)) else base)
+        (filter (fun ic => flexible (snd ic)) icols).
+Proof.
+  rewrite combine_map_l, filter_map_comm, map_map. cbn [snd]. apply map_ext. intros [i c]. reflexivity.
+Qed.
+
+Lemma calc_widths_x_false st cm o cols M : calc_widths_x false st cm o cols M = calc_widths st cm o cols M.
+Proof. unfold calc_widths_x, calc_widths. cbv zeta. rewrite (flex_min_shape false). reflexivity. Qed.
+
+Theorem calc_widths_x_expand_exact fm o cols M :
   t_expand o = true -> cols <> [] -> Forall col_free cols -> pad_ok o -> zlen cols <= M ->
-  exists ws, calc_widths false false o cols M = Ok ws /\ length ws = length cols /\
+  exists ws, calc_widths_x fm false false o cols M = Ok ws /\ length ws = length cols /\
              Forall (fun w => 1 <= w) ws /\ sumZ ws = M.
 Proof.
-  intros Hex Hne Hfree Hp HM. unfold calc_widths. rewrite Hex. cbv zeta.
+  intros Hex Hne Hfree Hp HM. unfold calc_widths_x. rewrite Hex. cbv zeta. rewrite (flex_min_shape fm).
   pose proof (indexed_forall col_free cols 0%nat Hfree) as Hifree.
   destruct (initial_widths_pos o M Hp _ Hifree) as [Hr0 Hw0]. cbv zeta in Hr0, Hw0.
   set (icols := indexed 0 cols) in *.
@@ -95,8 +117,8 @@ Proof.
     assert (Hmin : Forall (fun m => 1 <= m) flex_min).
     { unfold flex_min. apply Forall_forall. intros x Hx. apply in_map_iff in Hx as [[i c] [<- Hc]].
       apply filter_In in Hc as [Hc _]. apply indexed_in in Hc. rewrite Forall_forall in Hfree.
-      destruct (Hfree c Hc) as [Hcw _]. rewrite Hcw. cbn [opt_or].
-      pose proof (padding_width_nonneg o i Hp). lia. }
+      destruct (Hfree c Hc) as [Hcw _]. rewrite Hcw. cbn [opt_or]. cbv zeta.
+      pose proof (padding_width_nonneg o i Hp). destruct fm; lia. }
     assert (Hlm : length flex_min = length ratios).
     { unfold flex_min, ratios. rewrite !map_length. apply filter_indexed_length. }
     assert (Hzm : zip_mask ratios flex_min = ratios).
@@ -146,21 +168,27 @@ Proof.
   rewrite Hex in F1. exists ws. split; [exact F1|]. split; [lia|]. split; assumption.
 Qed.
 
+Corollary calc_widths_expand_exact o cols M :
+  t_expand o = true -> cols <> [] -> Forall col_free cols -> pad_ok o -> zlen cols <= M ->
+  exists ws, calc_widths false false o cols M = Ok ws /\ length ws = length cols /\
+             Forall (fun w => 1 <= w) ws /\ sumZ ws = M.
+Proof. rewrite <- calc_widths_x_false. apply calc_widths_x_expand_exact. Qed.
+
 (* ... as the property states it: asked to expand, no column width / min_width / no_wrap, one
    cell per column available beyond the borders  =>  borders + widths = the width asked for, and
    every printed line of the body is exactly that wide *)
-Theorem table_expand_exact o b cols avail rows :
+Theorem table_expand_exact fm o b cols avail rows :
   box_agrees o b -> t_expand o = true -> cols <> [] -> Forall col_free cols -> pad_ok o ->
   extra_width o (length cols) + zlen cols <= target_width o avail ->
-  exists ws, table_widths false false o cols avail = Ok ws /\ length ws = length cols /\
+  exists ws, table_widths_x fm false false o cols avail = Ok ws /\ length ws = length cols /\
     Forall (fun w => 1 <= w) ws /\
     extra_width o (length cols) + sumZ ws = target_width o avail /\
     (Forall (fun r => length (r_cells r) = length ws) rows ->
      exists lines, render_table false o b ws rows = Ok lines /\
                    expand_exact_b (target_width o avail) (map line_text lines) = true).
 Proof.
-  intros Hb Hex Hne Hfree Hp HW. unfold table_widths.
-  destruct (calc_widths_expand_exact o cols (target_width o avail - extra_width o (length cols)) Hex Hne Hfree Hp ltac:(lia))
+  intros Hb Hex Hne Hfree Hp HW. unfold table_widths_x.
+  destruct (calc_widths_x_expand_exact fm o cols (target_width o avail - extra_width o (length cols)) Hex Hne Hfree Hp ltac:(lia))
     as [ws [W1 [W2 [W3 W4]]]].
   exists ws. split; [exact W1|]. split; [exact W2|]. split; [exact W3|]. split; [lia|]. intros Hr.
   assert (Hne' : ws <> []) by (destruct ws; [destruct cols; [congruence|discriminate]|discriminate]).
@@ -196,10 +224,10 @@ Proof.
   repeat split; try reflexivity; [destruct (c_maxw c); [lia|constructor]|destruct (c_ratio c); [lia|constructor]|exact Hc].
 Qed.
 
-Theorem table_expand_exact_dom o b cols avail rows :
+Theorem table_expand_exact_dom fm o b cols avail rows :
   box_agrees o b -> expand_dom_b o cols avail = true ->
   Forall (fun c => Forall cell_fun_ok (c_cells c)) cols ->
-  exists ws, table_widths false false o cols avail = Ok ws /\ length ws = length cols /\
+  exists ws, table_widths_x fm false false o cols avail = Ok ws /\ length ws = length cols /\
     Forall (fun w => 1 <= w) ws /\
     extra_width o (length cols) + sumZ ws = target_width o avail /\
     (Forall (fun r => length (r_cells r) = length ws) rows ->
@@ -209,7 +237,7 @@ Proof.
   intros Hb Hd Hcells. unfold expand_dom_b in Hd.
   apply andb_true_iff in Hd as [Hd H6]. apply andb_true_iff in Hd as [Hd H5]. apply andb_true_iff in Hd as [Hd H4].
   apply andb_true_iff in Hd as [Hd H3]. apply andb_true_iff in Hd as [H1 H2].
-  apply (table_expand_exact o b cols avail rows Hb H1).
+  apply (table_expand_exact fm o b cols avail rows Hb H1).
   - destruct cols; [discriminate|discriminate].
   - rewrite forallb_forall in H3. apply Forall_forall. intros c Hc. apply col_free_b_ok; [apply H3; exact Hc|].
     rewrite Forall_forall in Hcells. apply Hcells. exact Hc.
@@ -247,3 +275,19 @@ Definition ratio1_cols : list tcol :=
 Lemma ratio_column_one_cell :
   table_widths false false ratio1_opts ratio1_cols 20 = Ok [1; 19] /\ expand_dom_b ratio1_opts ratio1_cols 20 = true.
 Proof. split; vm_compute; reflexivity. Qed.
+
+(* the finding and its repair, on the model: the solver as found hands the ratio column of this table
+   (in the expand domain, width far above the structural minimum) fewer cells than the measured
+   minimum of its cell; with the flexible minimum of fixes/C07_ratio_column_minimum.diff it gets it *)
+Lemma ratio_column_minimum_asis_refuted :
+  exists o cols avail ws w0 rest,
+    expand_dom_b o cols avail = true /\
+    table_widths_x false false false o cols avail = Ok ws /\ ws = w0 :: rest /\
+    (exists c cs f fs, cols = c :: cs /\ c_cells c = f :: fs /\ w0 < fst (f avail)) /\
+    (exists ws', table_widths_x true false false o cols avail = Ok ws' /\ ws' = [2; 18]).
+Proof.
+  exists ratio1_opts, ratio1_cols, 20, [1; 19], 1, [19].
+  split; [vm_compute; reflexivity|]. split; [vm_compute; reflexivity|]. split; [reflexivity|]. split.
+  - eexists _, _, _, _. split; [reflexivity|]. split; [reflexivity|]. vm_compute. reflexivity.
+  - exists [2; 18]. split; [vm_compute; reflexivity|reflexivity].
+Qed.
